@@ -14,6 +14,10 @@ CHECKS["C07"] = {
         {"harness": "VerifC07Single", "params": {"n": 4, "k": 5, "dtype": 2, "vals": 0, "ints": [0, 21]}},
         {"harness": "VerifC07Single", "params": {"n": 3, "k": 4, "dtype": 2, "vals": [0, 5], "ints": 0}},
         {"harness": "VerifC07Single", "params": {"n": 4, "k": 4, "dtype": 3, "vals": 0, "ints": 0}},
+        # one two-entry batch after "pre" single-entry stores alternating between two validators
+        {"harness": "VerifC07Batch", "params": {"n": 4, "pre": [4, 5]}},
+        {"harness": "VerifC07Batch", "params": {"n": 3, "pre": [2, 3]}},
+        {"harness": "VerifC07Batch", "params": {"n": 4, "pre": 5}, "reversemaps": True},
     ],
     "thorough": [
         {"harness": "VerifC07Single", "params": {"n": 4, "k": 6, "dtype": 2, "vals": [0, 21], "ints": [0, 21, 63]}, "cross": True},
@@ -21,9 +25,11 @@ CHECKS["C07"] = {
         {"harness": "VerifC07Single", "params": {"n": [5, 6, 7], "k": 7, "dtype": 2, "vals": 0, "ints": 0}, "timeout_ms": 300000},
         {"harness": "VerifC07Single", "params": {"n": 4, "k": 5, "dtype": [3, 9], "vals": 0, "ints": 0}},
         {"harness": "VerifC07Single", "params": {"n": 4, "k": 5, "dtype": 2, "vals": 0, "ints": 0}, "reversemaps": True},
+        {"harness": "VerifC07Batch", "params": {"n": [3, 4, 5], "pre": [3, 4, 5, 6, 7]}, "timeout_ms": 300000},
+        {"harness": "VerifC07Batch", "params": {"n": [3, 4, 5], "pre": [3, 4, 5, 6, 7]}, "reversemaps": True, "timeout_ms": 300000},
     ],
     "bounds": {
-        "quick": "n in {3,4}, threshold ceil(2n/3); histories of k<=5 single-entry batches; share index 1..n, root in {0,1,2}, signature id (8 bit) symbolic per step; internal/external pattern and validator-per-step pattern concrete per case; loop unwinding 12",
+        "quick": "n in {3,4}, threshold ceil(2n/3); histories of k<=5 single-entry batches; share index 1..n, root in {0,1,2}, signature id (8 bit) symbolic per step; internal/external pattern and validator-per-step pattern concrete per case; loop unwinding 12; plus one two-validator batch after up to 5 preliminary single-entry stores (both map iteration orders)",
         "thorough": "n in 3..7; k<=7; both map iteration orders for n=4; every VC decided by z3 and cvc5 for n<=4",
     },
     "outside": "longer histories; concurrent interleaving of two Store calls at store() granularity; real SignedData types (a harness type with a 1-byte root stands in; json.Marshal is an injective function of all fields)",
